@@ -140,9 +140,17 @@ type half struct {
 }
 
 type conn struct {
-	local, remote addr
-	in, out       *half
-	closed        bool
+	local, remote         addr
+	in, out               *half
+	closed                bool
+	nRead, nWrite, nClose string // operation names (precomputed)
+}
+
+func (c *conn) names() *conn {
+	c.nRead = "Read " + string(c.local) + "<-" + string(c.remote)
+	c.nWrite = "Write " + string(c.local) + "->" + string(c.remote)
+	c.nClose = "Conn.Close " + string(c.local) + "-" + string(c.remote)
+	return c
 }
 
 // DialTimeout mirrors net.DialTimeout (the timeout never expires: a dial either succeeds or is refused at once).
@@ -181,8 +189,8 @@ func DialFrom(local, address string) (net.Conn, error) {
 	}
 	ab := &half{obj: vsched.NewObj("pipe " + local + "->" + key)}
 	ba := &half{obj: vsched.NewObj("pipe " + key + "->" + local)}
-	client := &conn{local: addr(local), remote: addr(key), in: ba, out: ab}
-	server := &conn{local: addr(key), remote: addr(local), in: ab, out: ba}
+	client := (&conn{local: addr(local), remote: addr(key), in: ba, out: ab}).names()
+	server := (&conn{local: addr(key), remote: addr(local), in: ab, out: ba}).names()
 	vsched.Point("connect (enqueue in backlog) "+key, 0x305, nil, l.obj)
 	if l.closed {
 		return nil, &net.OpError{Op: "dial", Net: "tcp", Addr: addr(key), Err: syscall.ECONNREFUSED}
@@ -194,7 +202,7 @@ func DialFrom(local, address string) (net.Conn, error) {
 var errClosedConn = errors.New("use of closed network connection")
 
 func (c *conn) Read(p []byte) (int, error) {
-	vsched.Point("Read "+string(c.local)+"<-"+string(c.remote), 0x311, func() bool { return len(c.in.buf) > 0 || c.in.wclosed || c.closed }, c.in.obj)
+	vsched.Point(c.nRead, 0x311, func() bool { return len(c.in.buf) > 0 || c.in.wclosed || c.closed }, c.in.obj)
 	if c.closed {
 		return 0, &net.OpError{Op: "read", Net: "tcp", Source: c.local, Addr: c.remote, Err: errClosedConn}
 	}
@@ -207,7 +215,7 @@ func (c *conn) Read(p []byte) (int, error) {
 }
 
 func (c *conn) Write(p []byte) (int, error) {
-	vsched.Point("Write "+string(c.local)+"->"+string(c.remote), 0x312, nil, c.out.obj)
+	vsched.Point(c.nWrite, 0x312, nil, c.out.obj)
 	if c.closed {
 		return 0, &net.OpError{Op: "write", Net: "tcp", Source: c.local, Addr: c.remote, Err: errClosedConn}
 	}
@@ -219,7 +227,7 @@ func (c *conn) Write(p []byte) (int, error) {
 }
 
 func (c *conn) Close() error {
-	vsched.Point("Conn.Close "+string(c.local)+"-"+string(c.remote), 0x313, nil, c.in.obj, c.out.obj)
+	vsched.Point(c.nClose, 0x313, nil, c.in.obj, c.out.obj)
 	if c.closed {
 		return &net.OpError{Op: "close", Net: "tcp", Source: c.local, Addr: c.remote, Err: errClosedConn}
 	}
